@@ -262,10 +262,6 @@ func unwrapAny(v Value) Value {
 }
 
 func (ex *Exec) reach(label string) {
-	if ex.mergeDepth > 0 {
-		ex.noteReach = append(ex.noteReach, label)
-		return
-	}
 	ex.reached[label] = true
 }
 
